@@ -226,6 +226,97 @@ S = {
  "C15-5": ("C15", "/tmp/seed2/C15/_seed/3", "seed_demo_3_test.go", "^(TestSeedDemo3_SnapshotRequestedDuringSync)$", ".", ['C15'], "",
    'snapshot stamped with time.Now() captured before waiting on the executor semaphore',
    'a sync in flight produces TXID N with a later stamp; T in (stamp, t_N]'),
+ # ---- third wave (three changes per property for the properties that had two)
+ "C03-3": ("C03", "/tmp/seed3/C03/_seed/1", "seed3_demo1_test.go", "^(TestSeed3Demo1_)", ".", ['C03', 'C02'], "",
+   "snapshotWALEndOffset: 'WAL was cut back' guard on the fallback to the last L0 header's WAL extent uses >= instead of >",
+   "restart, then a snapshot before any sync of the new process copies WAL frames (previous process killed during its first snapshot upload), un-checkpointed frames in a fully synced WAL"),
+ "C03-4": ("C03", "/tmp/seed3/C03/_seed/2", "seed3_demo2_test.go", "^(TestSeed3Demo2_)", ".", ['C03'], "",
+   "checkDatabaseBehindReplica downloads the baseline L0 file in place under its final name",
+   "database behind the replica at start and a kill during the download; restart then fails forever on the half-written file"),
+ "C03-5": ("C03", "/tmp/seed3/C03/_seed/3", "seed3_demo3_test.go", "^(TestSeed3Demo3_)", ".", ['C03', 'C16'], "",
+   "WriteTXIDFile rewrites the -txid sidecar in place (O_TRUNC + write + fsync) instead of tmp + rename",
+   "follow mode and a kill between the open(O_TRUNC) and the write: empty sidecar, restart refuses"),
+ "C08-3": ("C08", "/tmp/seed3/C08/_seed/1", "seed3_demo1_test.go", "^(TestSeed3Demo1_)", ".", ['C08'], "",
+   "restoreLevelCursor.ensureCurrent drops any file whose MaxTXID is at or below the highest MaxTXID already listed at that level",
+   "a level listing a wide file followed by a file nested inside it, and a TXID/timestamp target that excludes the wide file but not the nested one"),
+ "C08-4": ("C08", "/tmp/seed3/C08/_seed/2", "seed3_demo2_test.go", "^(TestSeed3Demo2_)", ".", ['C08', 'C15'], "",
+   "CalcRestorePlan snapshot selection: timestamp filter `!CreatedAt.Before(ts)` -> `CreatedAt.After(ts)`",
+   "timestamp exactly equal to the creation time of a snapshot-level file"),
+ "C08-5": ("C08", "/tmp/seed3/C08/_seed/3", "seed3_demo3_test.go", "^(TestSeed3Demo3_)", ".", ['C08', 'C10'], "",
+   "CalcRestorePlan trailing gap check guarded by `currentMax > startTXID` instead of `len(infos) > 0`",
+   "latest-state restore where TXID snapshot.Max+1 is missing from every level while files exist beyond the hole"),
+ "C10-3": ("C10", "/tmp/seed3/C10/_seed/1", "seed3_demo1_test.go", "^(TestSeed3Demo1)", ".", ['C10'], "",
+   "failed integrity check removes the output only when the check reports rows; a PRAGMA that itself errors leaves the bad database in place",
+   "integrity check requested and a source damaged in page 1 or the schema root"),
+ "C10-4": ("C10", "/tmp/seed3/C10/_seed/2", "seed3_demo2_test.go", "^(TestSeed3Demo2)", ".", ['C10'], "",
+   "Restore treats a zero-length regular file at the output path as absent and renames over it",
+   "an existing empty output file (possibly with a live -wal next to it)"),
+ "C10-5": ("C10", "/tmp/seed3/C10/_seed/3", "seed3_demo3_test.go", "^(TestSeed3Demo3)", ".", ['C10'], "",
+   "Restore uses a private copy of DecodeDatabaseTo that stops after the last page: the compactor's end-of-stream checksum failure is never observed",
+   "a byte flip inside page payload that still LZ4-decompresses"),
+ "C11-3": ("C11", "/tmp/seed3/C11/_seed/1", "seed3_demo1_test.go", "^(TestSeed3Demo1_)", ".", ['C11'], "",
+   "WriteTXIDFile skips FsyncDir when the -txid sidecar already existed",
+   "second or later sidecar write for the same path (follow-mode progress updates, restarted follower)"),
+ "C11-4": ("C11", "/tmp/seed3/C11/_seed/2", "seed3_demo2_test.go", "^(TestSeed3Demo2_)", ".", ['C11', 'C19'], "",
+   "RestoreV3: snapshot f.Sync() removed, one fsync added at the end of WAL application, skipped by the early return for zero segments",
+   "v0.3.x restore where no WAL segment is selected (snapshot-only backup or a timestamp filtering every segment out)"),
+ "C11-5": ("C11", "/tmp/seed3/C11/_seed/3", "seed3_demo3_test.go", "^(TestSeed3Demo3_)", ".", ['C11'], "",
+   "Replica.Restore: shadowed err drops every non-ENOSPC fsync error, the database is renamed into place unflushed",
+   "fsync of <out>.tmp failing with a non-disk-full error (EIO)"),
+ "C14-3": ("C14", "/tmp/seed3/C14/_seed/1", "seed3_demo1_test.go", "^(TestSeed3Demo1_)", ".", ['C14'], "",
+   "DB.Close removes <db>-wal and <db>-shm when the WAL is 0 bytes long",
+   "application connection still open and the WAL emptied by the application's TRUNCATE checkpoint while Close waits for an in-flight snapshot stream"),
+ "C14-4": ("C14", "/tmp/seed3/C14/_seed/2", "seed3_demo2_test.go", "^(TestSeed3Demo2_)", ".", ['C14', 'C10'], "",
+   "EnsureExists + Restore treat a zero-length database file as missing and rename over it",
+   "application has already opened its new, still-empty database; a replica backup exists; more than one WAL generation written"),
+ "C14-5": ("C14", "/tmp/seed3/C14/_seed/3", "seed3_demo3_test.go", "^(TestSeed3Demo3_)", ".", ['C14'], "-count=1",
+   "snapshot stream opens and closes its own descriptor on the database file, dropping every POSIX lock the process holds on it",
+   "application in another process; it closes its last connection and writes again after a snapshot; litestream's later checkpoint truncates the source"),
+ "C16-3": ("C16", "/tmp/seed3/C16/_seed/1", "seed3_demo1_internal_test.go", "^(TestSeed3Demo1_)", ".", ['C16'], "",
+   "fillFollowGap stop condition `MinTXID > currentTXID+1` -> `MinTXID > gapMinTXID`: a higher-level file starting inside the gap is applied",
+   "L1 no longer reaches back to the follower's position but L2 does (retention by TXID; slow or restarted follower)"),
+ "C16-4": ("C16", "/tmp/seed3/C16/_seed/2", "seed3_demo2_test.go", "^(TestSeed3Demo2_)", ".", ['C16'], "",
+   "follow: header page-size sanity check placed before the `pageSize == 1 -> 65536` normalisation",
+   "source database with 64 KiB pages"),
+ "C16-5": ("C16", "/tmp/seed3/C16/_seed/3", "seed3_demo3_internal_test.go", "^(TestSeed3Demo3_)", ".", ['C16'], "",
+   "applyLTXFile computes the page offset in uint32: pages beyond 4 GiB land at offset mod 2^32",
+   "database larger than 4 GiB with a followed transaction touching a page above that mark"),
+ "C17-3": ("C17", "/tmp/seed3/C17/_seed/1", "seed3_demo1_internal_test.go", "^(TestSeed3Demo1_)", ".", ['C17'], "",
+   "Restore writes through a sparseFileWriter that seeks over all-zero pages: a database ending on the lock page comes out one page short",
+   "committed range ends exactly on the lock page (or has trailing zero pages)"),
+ "C17-4": ("C17", "/tmp/seed3/C17/_seed/2", "seed3_demo2_internal_test.go", "^(TestSeed3Demo2_)", ".", ['C17', 'C16'], "",
+   "follow-mode applyLTXFile truncates/syncs only when the file shrank: the file is never extended to include a trailing lock page",
+   "followed LTX file with Commit == LockPgno while the follower file is shorter"),
+ "C17-5": ("C17", "/tmp/seed3/C17/_seed/3", "seed3_demo3_internal_test.go", "^(TestSeed3Demo3_)", ".", ['C17'], "",
+   "snapshotReader pre-flight check that pages past the end of the file are in the WAL does not exempt the lock page",
+   "snapshot while growth across the lock page is still only in the WAL"),
+ "C18-3": ("C18", "/tmp/seed3/C18/_seed/1", "cmd/litestream-vfs/seed3_demo1_test.go", "^(TestSeed3Demo1_)", "./cmd/litestream-vfs/", ['C18'], '-tags=vfs,verif',
+   "VFS pollLevel: shrink trim of the polled batch rewritten as a range loop that also drops the entry for the new last page",
+   "one poll that sees a transaction writing page P followed by a shrink to exactly P pages that does not rewrite P"),
+ "C18-4": ("C18", "/tmp/seed3/C18/_seed/2", "cmd/litestream-vfs/seed3_demo2_test.go", "^(TestSeed3Demo2_)", "./cmd/litestream-vfs/", ['C18'], '-tags=vfs,verif',
+   "VFS rebuildIndex resets pending/pendingReplace only when no SHARED lock is held (cooperates with Unlock)",
+   "time travel set inside a read transaction during which a poll staged newer pages"),
+ "C18-5": ("C18", "/tmp/seed3/C18/_seed/3", "cmd/litestream-vfs/seed3_demo3_test.go", "^(TestSeed3Demo3_)", "./cmd/litestream-vfs/", ['C18'], '-tags=vfs,verif',
+   "VFS ResetTime re-enables hydrated reads after litestream_time=latest",
+   "hydration complete, time travel, a primary commit during the time-travel window, reset to latest"),
+ "C19-3": ("C19", "/tmp/seed3/C19/_seed/1", "seed3_demo1_test.go", "^(TestSeed3Demo1_)", ".", ['C19'], "",
+   "shouldUseV3Restore measures v0.3.x recency from the newest legacy snapshot only (no TimeBoundsV3)",
+   "both formats, no timestamp, newest legacy snapshot older than the newest LTX file, a legacy WAL segment newer than it"),
+ "C19-4": ("C19", "/tmp/seed3/C19/_seed/2", "seed3_demo2_test.go", "^(TestSeed3Demo2_)", ".", ['C19'], "",
+   "findBestV3SnapshotForTimestamp keeps only the last snapshot of each generation as a candidate",
+   "both formats, timestamp T, a legacy generation with snapshots straddling T, an eligible LTX snapshot older than the eligible legacy one"),
+ "C19-5": ("C19", "/tmp/seed3/C19/_seed/3", "seed3_demo3_test.go", "^(TestSeed3Demo3_)", ".", ['C19'], "",
+   "filterWALSegmentsV3 makes the timestamp bound exclusive (`After` -> `!Before`)",
+   "legacy restore with a timestamp exactly equal to a WAL segment's creation time"),
+ "C20-3": ("C20", "/tmp/seed3/C20/_seed/1", "s3/seed3_demo1_test.go", "^(TestSeed3Demo1_)", "./s3/", ['C20'], "",
+   "Lease.IsExpired returns true 2 s before ExpiresAt (LeaseExpiryMargin); AcquireLease reuses it to judge other instances' leases",
+   "an acquire by another instance within the last 2 s of a live lease"),
+ "C20-4": ("C20", "/tmp/seed3/C20/_seed/2", "s3/seed3_demo2_test.go", "^(TestSeed3Demo2_)", "./s3/", ['C20'], "",
+   "ReleaseLease drops the If-Match precondition when the caller's lease is already expired",
+   "A expires, B takes over, A releases its old lease, a third instance acquires"),
+ "C20-5": ("C20", "/tmp/seed3/C20/_seed/3", "s3/seed3_demo3_test.go", "^(TestSeed3Demo3_)", "./s3/", ['C20'], "",
+   "AcquireLease supersedes a live lease whose Owner equals its own",
+   "two distinct instances with the same Owner string, the second acquiring while the first's lease is live"),
 }
 
 
@@ -233,6 +324,8 @@ def do_import():
     for sid, t in S.items():
         src = t[1]
         dst = os.path.join(SEEDED, sid)
+        if os.path.exists(os.path.join(dst, "patch.diff")) or not os.path.exists(os.path.join(src, "patch.diff")):
+            continue
         os.makedirs(dst, exist_ok=True)
         for f in ("patch.diff", "demo_test.go", "NOTES.md"):
             p = os.path.join(src, f)
